@@ -926,6 +926,14 @@ def advance : Nat → World → Nat → World
     | some (d, id) => advance fuel (fireTimer { w with now := max w.now d } id) target
     | none => { w with now := target }
 
+/-- how many timers `advance` fires (its fuel is used up when this equals the fuel) -/
+def advanceUsed : Nat → World → Nat → Nat
+  | 0, _, _ => 0
+  | fuel + 1, w, target =>
+    match earliest (dueTimers w) target with
+    | some (d, id) => 1 + advanceUsed fuel (fireTimer { w with now := max w.now d } id) target
+    | none => 0
+
 /-- the application sends a message -/
 def appSend (w : World) (sid : Nat) (m : Msg) (compress : Bool) (wantCb : Bool) (pre : Option Msg) : World :=
   let cb := if wantCb then some (w.cbSeq + 1) else none
